@@ -31,7 +31,7 @@ void check_C18(Src &s, Ctx &ctx) {
     st.spec = decode_spec(s, so); st.vm.decode(s);
     if (st.spec.depth > 2) st.spec.depth = 2;
     // rare class: a construction that grows beyond 1000 loaded points (the addon switches from immediate to amortised loading of completed samples there)
-    bool big = cfg().tier == 1 && s.n > 0 && (s.p[s.n - 1] % 20) == 7;   // thorough tier only (a run takes ~30 s under ThreadSanitizer); decided from the last byte, consumes nothing
+    bool big = cfg().tier == 1 && s.n > 1 && ((unsigned)s.p[s.n - 1] + 256u * (unsigned)s.p[s.n - 2]) % 1000u == 7u;   // thorough tier only (a run takes ~30 s under ThreadSanitizer); decided from the last byte, consumes nothing
     if (big) { GridSpec b; b.family = s.pick(2) ? F_WAVE : F_LOCALP; b.dims = 2; b.outs = 1; b.depth = 2; b.rule = b.family == F_WAVE ? rule_wavelet : rule_localp; b.order = 1; st.spec = b; st.vm.bump = 2.0; st.vm.sharp = 20.0; }
     make_grid(st.g, st.spec, so.cap); ctx.log(st.spec.text());
     auto &g = st.g; const int d = st.spec.dims, outs = st.spec.outs; bool local = st.spec.family == F_LOCALP || st.spec.family == F_WAVE;
@@ -93,7 +93,7 @@ void check_C18(Src &s, Ctx &ctx) {
         ctx.label(overwrite ? "load:overwrite" : "load:needed");
     }
     // exactly-once + values at their coordinates + surrogate reproduces them
-    bool complete = st.spec.family != F_LOCALP || parent_complete(st);
+    bool complete = st.spec.family != F_LOCALP || parent_complete(st) || dag_closed(st);
     long n = check_nodal(ctx, "C18.value-at-wrong-point", st, st.spec.family == F_WAVE ? 1e-8 : 1e-9, complete);
     ctx.count("nodal-values", n); ctx.count("model-calls", log.calls);
     ctx.label(std::string("fam:") + fam_name(st.spec.family)); ctx.label(mode == 0 ? "mode:construct" : "mode:load"); ctx.label("workers:" + std::to_string(workers));
